@@ -26,6 +26,8 @@ def jobs():
         jobs_keyfile.register(_JOBS)
         from . import jobs_parser
         jobs_parser.register(_JOBS)
+        from . import jobs_merge
+        jobs_merge.register(_JOBS)
         from . import jobs_rfwc
         jobs_rfwc.register(_JOBS)
         names = [j.name for j in _JOBS]
@@ -125,3 +127,16 @@ prop("C17", "model_checking",
      "path of each entry to the reference recogniser's expectation; econf_getExtValue/getPath/get_absolute_path "
      "have their own contracts.",
      PARSER_NOTE, "CBMC bounded scenarios on read_file + contracts on the extended getter", "6 C17")
+prop("C03", "model_checking",
+     "econf_mergeFiles (with insert_nogroup, merge_existing_groups, add_new_groups, cpy_file_entry, the group "
+     "list helpers - all real code) is symbolically executed by CBMC for every pair of section shapes up to 2+2 "
+     "(quick) / 3+2, 2+3 and selected 3+3 (thorough) over {group-less, A, B} incl. re-opened sections and empty "
+     "lists, parser-style and econf_newKeyFile-style objects, with the keys of all entries symbolic. The "
+     "postcondition is the property statement itself evaluated by a reference merge over (section,key) pairs: "
+     "presence, visible value, nothing else, the four order clauses, inputs unchanged - plus all memory-safety "
+     "checks on the merge array. One job per shape pair because symbolic shapes do not fit in memory.",
+     "Bounded: list lengths <= 3, key universe {x,y}, no (section,key) twice within one list; not under dfcc (the "
+     "postcondition is asserted by the harness, the frame is checked by comparing the inputs before/after). "
+     "Open known finding: group-less keys that are not leading in an input (setter-built objects only).",
+     "CBMC bounded symbolic execution of the real merge against a reference merge, one job per section-shape pair",
+     "6 C03")
